@@ -20,8 +20,13 @@ import (
 )
 
 type Op struct {
-	Kind string      `json:"kind"` // bulk | crash | kill | restart | seal
-	Docs []model.Doc `json:"docs,omitempty"`
+	Kind string `json:"kind"` // bulk | crash | kill | restart | seal | burst | retry
+	// burst: Docs and Docs2 are acknowledged bulks sent concurrently, the first one delayed
+	// at DelayPoint.  retry: the client re-sends the documents of the latest never-
+	// acknowledged bulk together with new ones (Docs), as it does after a lost ack.
+	Docs2      []model.Doc `json:"docs2,omitempty"`
+	DelayPoint string      `json:"delay_point,omitempty"`
+	Docs       []model.Doc `json:"docs,omitempty"`
 	// crash: the process exits the first time execution reaches Point while writing Docs
 	Point string `json:"point,omitempty"`
 	// torn tail: after the crash the file that was being written is cut back to
@@ -72,7 +77,7 @@ func genCase(t *rapid.T) Case {
 		switch {
 		case k < 8:
 			c.Ops = append(c.Ops, Op{Kind: "bulk", Docs: genDocs(t, &seq, ids)})
-		case k < 15:
+		case k < 14:
 			op := Op{Kind: "crash", Docs: genDocs(t, &seq, ids), Point: rapid.SampledFrom(crashPoints).Draw(t, "point")}
 			switch rapid.IntRange(0, 5).Draw(t, "tornkind") {
 			case 0:
@@ -85,8 +90,15 @@ func genCase(t *rapid.T) Case {
 				op.TornPermille = rapid.IntRange(1, 999).Draw(t, "tornpm")
 			}
 			c.Ops = append(c.Ops, op)
+		case k < 16:
+			c.Ops = append(c.Ops, Op{Kind: "burst", Docs: genDocs(t, &seq, ids), Docs2: genDocs(t, &seq, ids),
+				DelayPoint: rapid.SampledFrom([]string{"aw.after_docs", "fw.written", "aw.before_docs", ""}).Draw(t, "delaypoint")})
 		case k < 17:
-			c.Ops = append(c.Ops, Op{Kind: "kill"})
+			if rapid.Bool().Draw(t, "retry") {
+				c.Ops = append(c.Ops, Op{Kind: "retry", Docs: genDocs(t, &seq, ids)})
+			} else {
+				c.Ops = append(c.Ops, Op{Kind: "kill"})
+			}
 		case k < 19:
 			c.Ops = append(c.Ops, Op{Kind: "restart"})
 		default:
@@ -192,6 +204,45 @@ func runCase(c Case) (evid.Result, error) {
 				}
 			}
 			res.Labels = append(res.Labels, "crash@"+op.Point)
+		case "burst":
+			r, err := p.Do(harness.PCmd{Op: "burst", Docs: op.Docs, Docs2: op.Docs2, DelayPoint: op.DelayPoint, DelayMs: 15})
+			if err != nil {
+				return res, evid.Failf("died-in-bulk", "step %d: store died during two concurrent bulks (exit %d): %s", i, p.Exit, p.StderrTail())
+			}
+			if !r.OK {
+				return res, evid.Failf("bulk-error", "step %d: %s", i, r.Err)
+			}
+			st.acked = append(append(st.acked, op.Docs...), op.Docs2...)
+			if crashes > 0 {
+				bulksAfterCrash++
+			}
+			res.Labels = append(res.Labels, "concurrent-burst")
+		case "retry":
+			// the latest never-acknowledged bulk is sent again, interleaved with new documents
+			docs := append([]model.Doc{}, op.Docs...)
+			if n := len(st.inflight); n > 0 {
+				old := st.inflight[n-1]
+				st.inflight = st.inflight[:n-1]
+				var mixed []model.Doc
+				for j := 0; j < len(old) || j < len(docs); j++ {
+					if j < len(old) {
+						mixed = append(mixed, old[j])
+					}
+					if j < len(docs) {
+						mixed = append(mixed, docs[j])
+					}
+				}
+				docs = mixed
+				res.Labels = append(res.Labels, "retry-of-unacked-bulk")
+			}
+			r, err := p.Do(harness.PCmd{Op: "bulk", Docs: docs, Wait: true})
+			if err != nil {
+				return res, evid.Failf("died-in-bulk", "step %d: store died while ingesting a retried bulk (exit %d): %s", i, p.Exit, p.StderrTail())
+			}
+			if !r.OK {
+				return res, evid.Failf("bulk-error", "step %d: %s", i, r.Err)
+			}
+			st.acked = append(st.acked, docs...)
 		case "kill":
 			p.Kill()
 			res.Labels = append(res.Labels, "kill9")
